@@ -177,8 +177,18 @@ def canonical_token(s):
     return tok
 
 
-def sym_int(x, *a):
-    """stand-in for the builtin int() inside the module under test: identity on symbolic integers"""
-    if isinstance(x, (SInt, SIntInt)):
-        return x if isinstance(x, SInt) else x.s
-    return int(x, *a)
+class _IntMeta(type):
+    def __instancecheck__(cls, x):
+        return isinstance(x, int)
+
+
+class sym_int(int, metaclass=_IntMeta):
+    """stand-in for the builtin int inside the module under test: identity on symbolic integers,
+    the real int otherwise (isinstance(x, int) keeps working)."""
+
+    def __new__(cls, x=0, *a):
+        if isinstance(x, SInt):
+            return x
+        if isinstance(x, SIntInt):
+            return x.s
+        return int(x, *a)
